@@ -92,7 +92,7 @@ def extra_c20(pid, tier, seed, workdir, known, write_replay):
         elif v[5].startswith("fail:") or v[4].startswith("fail:"):
             detail = v[5] if v[5].startswith("fail:") else v[4]
         if detail:
-            m = re.match(r"fail:([A-Za-z0-9_.\-]+#[A-Za-z0-9_.\-:]+)", detail)
+            m = re.match(r"fail:([A-Za-z0-9_.\-]+#[A-Za-z0-9_.\-]+)", detail)
             sig = m.group(1) if m else "unclassified"
             kf = next((k for k in known if k["signature"] == sig), None)
             if kf:
@@ -240,4 +240,362 @@ PROPS["C12"] = dict(
     trusted_base=COMMON_TRUSTED + ["nagaKey transcribes naga 24 back/pipeline_constants.rs (id.to_string() or name)",
                                    "numeric conversion `as f64` and naga's conversion back are outside the model (theorem is parametric in the value type)"],
     assumptions=["OverridesScalar (named scalar overrides) is checked on every dumped module"],
+)
+
+
+def parse_sexp(s):
+    """tiny S-expression reader for harness output lines"""
+    out, stack, i, n = [], [], 0, len(s)
+    cur = out
+    while i < n:
+        c = s[i]
+        if c == '(':
+            new = []; cur.append(new); stack.append(cur); cur = new; i += 1
+        elif c == ')':
+            cur = stack.pop(); i += 1
+        elif c == '"':
+            j = i + 1
+            while s[j] != '"':
+                j += 1
+            cur.append(('str', re.sub(r"\\u\{([0-9a-fA-F]+)\}", lambda m: chr(int(m.group(1), 16)), s[i + 1:j]))); i = j + 1
+        elif c in ' \t\r\n':
+            i += 1
+        else:
+            j = i
+            while j < n and s[j] not in ' \t\r\n()"':
+                j += 1
+            cur.append(s[i:j]); i = j
+    return out
+
+
+def sx(x):
+    return x[1] if isinstance(x, tuple) else x
+
+
+def run_tool_on_streams(tool_args, streams, workdir, name):
+    path = os.path.join(workdir, name + ".cases")
+    with open(path, "w") as f:
+        for st in streams:
+            r = subprocess.run([os.path.join(BIN, "cases")] + [str(x) for x in st], stdout=subprocess.PIPE, text=True)
+            f.write(r.stdout)
+    lines = [l for l in open(path).read().split("\n") if l.strip()]
+    k = 8
+    chunks = [lines[i::k] for i in range(k)]
+
+    def run(chunk):
+        return subprocess.run(tool_args, input="\n".join(chunk) + "\n", stdout=subprocess.PIPE, stderr=subprocess.PIPE, text=True).stdout
+    with concurrent.futures.ThreadPoolExecutor(max_workers=k) as ex:
+        outs = list(ex.map(run, chunks))
+    case_by_id = {}
+    for l in lines:
+        m = re.match(r'\(src "([^"]*)"', l)
+        if m:
+            case_by_id[re.sub(r"\\u\{([0-9a-fA-F]+)\}", lambda mm: chr(int(mm.group(1), 16)), m.group(1))] = l
+    return "".join(outs), case_by_id
+
+
+def classify_and_report(pid, items, known, write_replay, case_by_id):
+    """items: (signature, detail, case_id, is_spec_failure). Dedup per signature; known findings -> KNOWN-FINDING"""
+    viol, kn, seen, kseen = [], [], set(), set()
+    for sig, detail, cid, is_spec in items:
+        kf = next((k for k in known if k["signature"] == sig), None)
+        if kf:
+            if sig not in kseen:
+                kseen.add(sig)
+                kn.append(f"KNOWN-FINDING: property={pid} {sig}: {kf.get('what', '')} (e.g. case {cid})")
+            continue
+        if sig in seen:
+            continue
+        seen.add(sig)
+        p = write_replay(pid, "spec-fails-on-implementation" if is_spec else "spec-validation", case_by_id.get(cid), 0, [0], "fail:" + sig + ": " + detail)
+        viol.append((p, "" if is_spec else " no-failing-input-found"))
+    return viol, kn
+
+
+def extra_c02(pid, tier, seed, workdir, known, write_replay):
+    """the REAL wgpu-core 24.0.5 shader-interface validation on the REAL generated layouts (harness oracle_wgpu)"""
+    n = 1 if tier == "quick" else 12
+    streams = [("fixtures",), ("gen", "textures", seed, 250 * n), ("gen", "general", seed, 250 * n), ("gen", "callgraph", seed, 100 * n), ("gen", "bindings", seed, 100 * n)]
+    out, case_by_id = run_tool_on_streams([os.path.join(BIN, "oracle_wgpu")], streams, workdir, "oracle")
+    items, counts = [], {}
+    ncase = 0
+    for line in out.split("\n"):
+        if not line.startswith("(oracle"):
+            continue
+        ncase += 1
+        t = parse_sexp(line)[0]
+        cid, status = sx(t[1]), t[2]
+        status = status if isinstance(status, str) else "panic"
+        counts["status:" + status] = counts.get("status:" + status, 0) + 1
+        if status == "panic":
+            items.append(("oracle#panic", "oracle harness panicked", cid, False))
+        for sec in t[3:]:
+            if not isinstance(sec, list) or not sec:
+                continue
+            if sec[0] == "provided":
+                for ep in sec[1:]:
+                    for v in ep[3:]:
+                        if v == "ok" or v == "ignored-fragment-input":
+                            counts["provided:ok"] = counts.get("provided:ok", 0) + 1
+                            continue
+                        kind = sx(v[1])
+                        if kind == "Input" or kind == "ShaderLocationClash":
+                            continue          # vertex inputs are property C07's
+                        inner = sx(v[4]) if kind == "Binding" else (sx(v[4]) if kind == "Filtering" else "")
+                        sig = f"oracle#{kind}-{inner}".rstrip("-")
+                        counts[sig] = counts.get(sig, 0) + 1
+                        items.append((sig, f"wgpu-core check_stage rejects entry point {sx(ep[1])} ({ep[2]}): {' '.join(str(sx(a)) for a in v[1:])[:300]}", cid, True))
+            elif sec[0] == "derived":
+                for d in sec[1:]:
+                    kind = sx(d[3])
+                    counts["derived:" + kind] = counts.get("derived:" + kind, 0) + 1
+                    if kind in ("unused", "extra-visibility"):
+                        continue
+                    sig = f"oracle#derived-{kind}"
+                    items.append((sig, f"group {d[1]} binding {d[2]}: {sx(d[4])[:200]}", cid, True))
+            elif sec[0] == "bgl":
+                for e in sec[1:]:
+                    if e[3] == "ok":
+                        counts["bgl:ok"] = counts.get("bgl:ok", 0) + 1
+                        continue
+                    var = sx(e[3][1])
+                    sig = "oracle#bgl-" + re.sub(r"[^A-Za-z0-9]", "", var.split("(")[0])
+                    counts[sig] = counts.get(sig, 0) + 1
+                    items.append((sig, f"create_bind_group_layout rules reject group {e[1]} binding {e[2]}: {var}", cid, True))
+    viol, kn = classify_and_report(pid, items, known, write_replay, case_by_id)
+    return {"oracle_cases": ncase, "oracle_verdicts": counts,
+            "oracle": "wgpu_core::validation::Interface::check_stage (Provided + Derived mode) and the per-entry rules of Device::create_bind_group_layout, on the real generated entries"}, viol, kn, []
+
+
+PROPS["C02"] = dict(
+    lean_modules=["WgslVerif.Props.C02"],
+    theorems=["WgslVerif.C02_partial", "WgslVerif.C02_counterexample", "WgslVerif.bindingType_accepted", "WgslVerif.classArm_spec", "WgslVerif.viewDim_matches"],
+    streams=lambda tier, seed: (
+        [("fixtures",), ("gen", "textures", seed, 400), ("gen", "general", seed, 300), ("gen", "bindings", seed, 100)] if tier == "quick" else
+        [("fixtures",), ("gen", "textures", seed, 8000), ("gen", "general", seed, 6000), ("gen", "bindings", seed, 2000), ("gen", "scale", seed, 200)]),
+    opts=q_opts([0], [0, 48]),
+    extra=extra_c02,
+    rule="cases: fixtures + generator profiles textures/general/bindings: uniform / storage(read, read_write) buffers of struct, array, runtime array, scalar, vector, matrix type; every sampled / "
+         "depth / multisampled / storage texture type (all storage formats x read/write/read_write/atomic x 1d/2d/2d_array/3d), sampler and sampler_comparison; sparse binding indices; "
+         "each case is also handed to the REAL wgpu-core check_stage; non-trivial = at least one resource binding; distinct = distinct WGSL text",
+    trusted_base=COMMON_TRUSTED + ["Ext.WgpuBinding transcribes wgpu-core 24.0.5 check_binding_use / create_bind_group_layout entry rules; validated per case against the real check_stage (oracle_wgpu)",
+                                   "resourceShapes (what naga's validator guarantees about resource variables) is evaluated on every validated module",
+                                   "create_bind_group_layout cannot be executed without a device: its per-entry rules are a transcription, with all optional features assumed enabled; binding-index limits of a device are not modelled"],
+    assumptions=["the README's assumption that samplers are filtering and float textures filterable is part of the property for layout creation; integer textures sampled through a sampler are a recorded finding"],
+)
+
+PROPS["C05"] = dict(
+    lean_modules=["WgslVerif.Props.C05"],
+    theorems=["WgslVerif.C05", "WgslVerif.C05_complete", "WgslVerif.C05_sound", "WgslVerif.find_struct_by_name", "WgslVerif.offsetAsserts_eq"],
+    streams=lambda tier, seed: (
+        [("fixtures",), ("gen", "structs", seed, 400), ("gen", "general", seed, 200), ("gen", "vertex", seed, 100)] if tier == "quick" else
+        [("fixtures",), ("gen", "structs", seed, 10000), ("gen", "general", seed, 5000), ("gen", "vertex", seed, 2000), ("gen", "scale", seed, 300)]),
+    opts=q_opts([2, 6, 18, 34, 1], [2, 6, 18, 34, 1, 50, 15, 47]),
+    rule="cases: fixtures + generator profiles structs/general/vertex (scalars, vec2/3/4, all matrix shapes, fixed arrays incl. of vec3/matrices/structs, nested structs, atomics, "
+         "vec3-then-scalar packing, @align/@size) x 3 representations with bytemuck host-shareable on (and off); non-trivial = at least one struct emitted; distinct = distinct WGSL text",
+    trusted_base=COMMON_TRUSTED + ["Ext.WgslLayout transcribes WGSL 13.4 AlignOf/SizeOf; layoutOK compares it with naga's recorded offsets / spans / strides / Layouter numbers on every validated module",
+                                   "whether rustc's layout passes the assertions is decided by rustc (batch harness, thorough tier)"],
+    assumptions=["C05_sound is stated for an arbitrary layout assignment: it needs no model of rustc"],
+)
+
+PROPS["C06"] = dict(
+    lean_modules=["WgslVerif.Props.C06"],
+    theorems=["WgslVerif.C06", "WgslVerif.C06_denote", "WgslVerif.C06_fields", "WgslVerif.C06'"],
+    streams=lambda tier, seed: (
+        [("fixtures",), ("gen", "structs", seed, 400), ("gen", "general", seed, 200), ("gen", "vertex", seed, 100)] if tier == "quick" else
+        [("fixtures",), ("gen", "structs", seed, 10000), ("gen", "general", seed, 5000), ("gen", "vertex", seed, 2000), ("gen", "scale", seed, 300)]),
+    opts=q_opts([4, 20, 36], [4, 20, 36, 52, 68, 84]),
+    rule="cases: fixtures + generator profiles structs/general/vertex under the three representations (encase on so that runtime arrays are emitted); all member types and nestings "
+         "(arrays of arrays, arrays of structs, structs in structs, atomics, trailing runtime arrays, interleaved builtins); non-trivial = at least one struct emitted; distinct = distinct WGSL text",
+    trusted_base=COMMON_TRUSTED + ["matrix denotation convention: matCxR<f32> = dims [R, C] in all representations (pinned by the repo's fixtures)"],
+    assumptions=["matrices are float (naga rejects other element kinds); struct names distinct (TypeArenaOk)"],
+)
+
+PROPS["C16"] = dict(
+    lean_modules=["WgslVerif.Props.C16"],
+    theorems=["WgslVerif.C16", "WgslVerif.C16_literal_roundtrip", "WgslVerif.C16_include_only_source", "WgslVerif.RustLex.unesc_of_esc"],
+    streams=lambda tier, seed: (
+        [("fixtures",), ("gen", "unicode", seed, 400), ("gen", "general", seed, 150), ("genpath", "unicode", seed, 100), ("genpath", "general", seed, 100)] if tier == "quick" else
+        [("fixtures",), ("gen", "unicode", seed, 10000), ("gen", "general", seed, 3000), ("genpath", "unicode", seed, 2000), ("genpath", "general", seed, 2000)]),
+    opts=q_opts([0], [0, 48]),
+    rule="cases: fixtures + generator profile unicode (quotes, backslashes, braces, CR/LF, NUL and other control characters, non-ASCII and non-BMP text in comments and identifiers) + general, "
+         "embedded and with include paths (spaces, backslashes, quotes, non-ASCII, empty); every real literal token is unescaped by RustLex.unescapeToken AND decoded by syn, both compared with the source; "
+         "non-trivial = generation succeeded; distinct = distinct WGSL text",
+    trusted_base=COMMON_TRUSTED + ["Ext.RustLex transcribes the Rust lexer's string-literal semantics; validated against syn::LitStr::value() on every emitted literal",
+                                   "prettyplease / rustfmt keep literal tokens (checked per case: the literal is read from the formatted output)"],
+    assumptions=["partial: formatter behaviour is observed, not proved"],
+)
+
+
+def write_stream_file(streams, path):
+    with open(path, "w") as f:
+        for st in streams:
+            r = subprocess.run([os.path.join(BIN, "cases")] + [str(x) for x in st], stdout=subprocess.PIPE, text=True)
+            f.write(r.stdout)
+    return path
+
+
+PROPERTY_FAULTS = ["absent", "exit1-after-drain", "exit1-no-read", "kill-self", "kill-before-read",
+                   "exit0-no-read-empty", "exit0-drain-empty", "slow-ok", "real"]
+
+
+def extra_c19(pid, tier, seed, workdir, known, write_replay):
+    cases = write_stream_file([("fixtures",), ("gen", "general", seed, 40)], os.path.join(workdir, "faults.cases"))
+    n = 3 if tier == "quick" else 8
+    r = subprocess.run([os.path.join(BIN, "faults"), "--cases", cases, "--small", str(n), "--large", str(n), "--timeout", "30"],
+                       stdout=subprocess.PIPE, stderr=subprocess.PIPE, text=True)
+    items, table, ntr = [], {}, 0
+    for line in r.stdout.split("\n"):
+        if not line.startswith("(trial"):
+            continue
+        t = parse_sexp(line)[0]
+        cid, size, fault, outcome, same = sx(t[1]), t[2], sx(t[3]), t[4], t[5]
+        oc = outcome if isinstance(outcome, str) else outcome[0]
+        ntr += 1
+        key = f"{fault}/{size}:{oc}:{same}"
+        table[key] = table.get(key, 0) + 1
+        if fault not in PROPERTY_FAULTS:
+            continue            # truncated / garbage / invalid-utf8 output with exit status 0 are beyond the property's fault list
+        if oc == "panic":
+            items.append((f"faults#panic-{fault}", f"formatter fault '{fault}' ({size} output): generation panicked: {sx(outcome[1])[:160]}", cid, True))
+        elif oc == "hang":
+            items.append((f"faults#hang-{fault}", f"formatter fault '{fault}' ({size} output): no result within the timeout", cid, True))
+        elif oc != "ok":
+            items.append((f"faults#{oc}-{fault}", f"formatter fault '{fault}' ({size} output): outcome {oc}", cid, True))
+        elif same == "false":
+            items.append((f"faults#different-program-{fault}", f"formatter fault '{fault}' ({size} output): returned text is not the same program as with the formatter off", cid, True))
+    sp = subprocess.run([os.path.join(BIN, "faults"), "--same-program", "--cases",
+                         write_stream_file([("fixtures",), ("gen", "general", seed, 120 if tier == "quick" else 1500), ("gen", "consts", seed, 40 if tier == "quick" else 500)], os.path.join(workdir, "same.cases"))],
+                        stdout=subprocess.PIPE, stderr=subprocess.PIPE, text=True)
+    same_counts = {}
+    for line in sp.stdout.split("\n"):
+        if not line.startswith("(same"):
+            continue
+        t = parse_sexp(line)[0]
+        cid, verdict = sx(t[1]), t[2]
+        same_counts[verdict] = same_counts.get(verdict, 0) + 1
+        if verdict == "modulo-empty-stmt":
+            items.append(("same-program#modulo-empty-stmt", "rustfmt on vs off differ by an empty statement `;` after `if let Some(value) = self.x { .. }` in OverrideConstants::constants (prettyplease drops it)", cid, True))
+        elif verdict == "false":
+            off = t[3] if isinstance(t[3], str) else t[3][0]
+            on = t[4] if isinstance(t[4], str) else t[4][0]
+            if off == "panic" and on == "ok":
+                items.append(("same-program#off-panics-on-returns", "with the formatter off generation panics (unparsable tokens), with it on the unformatted tokens are returned", cid, True))
+            else:
+                items.append(("same-program#different", f"rustfmt on vs off are different programs (off {off}, on {on})", cid, True))
+    if ntr == 0:
+        items.append(("faults#harness", "faults harness produced no trials: " + r.stderr[-300:], "", False))
+    case_by_id = {}
+    for l in open(cases):
+        m = re.match(r'\(src "([^"]*)"', l)
+        if m:
+            case_by_id[m.group(1)] = l.rstrip("\n")
+    viol, kn = classify_and_report(pid, items, known, write_replay, case_by_id)
+    return {"fault_trials": ntr, "fault_table": table, "same_program": same_counts,
+            "faults": PROPERTY_FAULTS + ["(beyond the property: truncated-ok, garbage-ok, invalid-utf8-ok)"]}, viol, kn, []
+
+
+def extra_c18(pid, tier, seed, workdir, known, write_replay):
+    n = 1 if tier == "quick" else 10
+    cases = write_stream_file([("fixtures",), ("gen", "general", seed, 120 * n), ("gen", "structs", seed, 80 * n)], os.path.join(workdir, "det.cases"))
+    args = [os.path.join(BIN, "determinism"), "--cases", cases, "--opts", "0,6,21,38,47" if tier == "quick" else "0,6,21,38,47,53,90,15", "--strace"]
+    r = subprocess.run(args, stdout=subprocess.PIPE, stderr=subprocess.PIPE, text=True)
+    items, cov = [], {}
+    for line in r.stdout.split("\n"):
+        if line.startswith("(nondeterministic"):
+            t = parse_sexp(line)[0]
+            items.append((f"determinism#{re.sub(r'[0-9]+$', '', sx(t[3]))}", f"case {sx(t[1])} option set {t[2]}: output differs ({sx(t[3])})", sx(t[1]), True))
+        elif line.startswith("(state-changed"):
+            items.append(("determinism#state-changed", line[:200], "", True))
+        elif line.startswith("(strace"):
+            t = parse_sexp(line)[0]
+            for sec in t[1:]:
+                if isinstance(sec, list) and sec and sec[0] in ("writes", "execs", "reads", "other-file-calls") and len(sec) > 1:
+                    items.append((f"determinism#syscall-{sec[0]}", f"generation performed {sec[0]}: {str(sec[1:])[:200]}", "", True))
+            cov["strace"] = line[:600]
+        elif line.startswith("(summary"):
+            cov["determinism_summary"] = line[:600]
+    if "determinism_summary" not in cov:
+        items.append(("determinism#harness", "determinism harness gave no summary: " + r.stderr[-300:], "", False))
+    viol, kn = classify_and_report(pid, items, known, write_replay, {})
+    return cov, viol, kn, []
+
+
+def extra_c17(pid, tier, seed, workdir, known, write_replay):
+    n = 1 if tier == "quick" else 10
+    cases = write_stream_file([("fixtures",), ("gen", "general", seed, 150 * n), ("gen", "structs", seed, 50 * n)], os.path.join(workdir, "corrupt.cases"))
+    r = subprocess.run([os.path.join(BIN, "corrupt"), "--cases", cases, "--seed", str(seed), "--per-case", "8"],
+                       stdout=subprocess.PIPE, stderr=subprocess.DEVNULL, text=True)
+    items, hist, ncor = [], {}, 0
+    for line in r.stdout.split("\n"):
+        if line.startswith("(corrupt "):
+            t = parse_sexp(line)[0]
+            ncor += 1
+            cls, verdict = t[4], t[7]
+            hist[cls] = hist.get(cls, 0) + 1
+            v = verdict if isinstance(verdict, str) else sx(verdict)
+            if v not in ("ok", "inherited-panic"):
+                items.append((f"corrupt#{cls}", f"{sx(t[1])} corruption {t[2]} ({sx(t[3])}): {v}", sx(t[1]), True))
+        elif line.startswith("(emit-panic"):
+            t = parse_sexp(line)[0]
+            items.append((f"corrupt#emit-panic-{sx(t[3])}", f"{sx(t[3])} panicked: {sx(t[4])[:160]}", sx(t[1]), True))
+        elif line.startswith("(panic "):
+            t = parse_sexp(line)[0]
+            # a panic on a source naga REJECTS breaks the property; panics on accepted sources are generation's business (C09 / C01)
+            if len(t) > 6 and t[6] in ("parse-error",) or (len(t) > 6 and t[6] == "validation-error" and t[5] == "on"):
+                items.append(("corrupt#panic-on-rejected-source", f"{sx(t[1])} corruption {t[2]}: {sx(t[3])[:160]}", sx(t[1]), True))
+    if ncor == 0:
+        items.append(("corrupt#harness", "corrupt harness produced no cases", "", False))
+    case_by_id = {}
+    for l in open(cases):
+        m = re.match(r'\(src "([^"]*)"', l)
+        if m:
+            case_by_id[m.group(1)] = l.rstrip("\n")
+    viol, kn = classify_and_report(pid, items, known, write_replay, case_by_id)
+    return {"corrupted_sources": ncor, "naga_classes": hist}, viol, kn, []
+
+
+PROPS["C19"] = dict(
+    lean_modules=["WgslVerif.Props.C19"],
+    theorems=["WgslVerif.C19", "WgslVerif.C19_faults", "WgslVerif.C19_ok", "WgslVerif.C19_total", "WgslVerif.C19_legacy_counterexample"],
+    driver_props=["ALL"],
+    streams=lambda tier, seed: [("fixtures",), ("gen", "general", seed, 60 if tier == "quick" else 1500)],
+    opts=q_opts([0], [0, 6]),
+    extra=extra_c19,
+    rule="process-level: the real create_shader_module with rustfmt=true runs in child processes whose PATH holds a stub `rustfmt` for each fault "
+         "{absent, exit 1 after draining stdin, exit 1 without reading, killed before / while reading, exit 0 printing nothing (with / without reading), slow, real} x token text "
+         "below / above the pipe buffer, under a hard timeout; plus rustfmt on vs off compared as normalised token streams over generated shaders; "
+         "non-trivial = generation reached the formatter; distinct = distinct WGSL text",
+    trusted_base=COMMON_TRUSTED + ["which fault yields which answers of spawn / write_all / wait_with_output is OS behaviour (ProcEnv): established by the stubs, not proved",
+                                   "token preservation by prettyplease / rustfmt is observed per case"],
+    assumptions=["partial: the theorem covers the spawn/write/wait state machine; hangs are excluded by the timeout harness only"],
+)
+
+PROPS["C18"] = dict(
+    lean_modules=["WgslVerif.Props.C18"],
+    theorems=["WgslVerif.C18_set_order", "WgslVerif.C18_perm", "WgslVerif.C18_pure"],
+    driver_props=["ALL"],
+    streams=lambda tier, seed: [("fixtures",), ("gen", "general", seed, 200 if tier == "quick" else 5000), ("gen", "structs", seed, 100 if tier == "quick" else 3000)],
+    opts=q_opts([0, 38], [0, 38, 21, 47, 90]),
+    extra=extra_c18,
+    rule="whole-output correspondence (every section of the real output equals the Lean function of (module, options, source, path)) + process-level: each (case, option set) twice "
+         "in-process and after all other cases, in 4 child processes with different cwd / environment / hash seeds / case order, on 16 threads with shuffled orders, bytes compared; one child "
+         "under strace: no file written / created, nothing exec'd, nothing read during generation; non-trivial = generation returned; distinct = distinct WGSL text",
+    trusted_base=COMMON_TRUSTED + ["environment reads are not syscalls: covered only by the differing-environment runs",
+                                   "with rustfmt=true the result additionally depends on what `rustfmt` on PATH does (the rustup proxy consults HOME): outside the property ('other than spawning the formatter')"],
+    assumptions=["partial: schedules, processes and hash seeds are runtime behaviour; the theorem covers the only unordered container"],
+)
+
+PROPS["C17"] = dict(
+    lean_modules=["WgslVerif.Props.C17"],
+    theorems=["WgslVerif.C17_parse", "WgslVerif.C17_validate", "WgslVerif.C17_gate", "WgslVerif.C17_total", "WgslVerif.gen_validate_irrelevant"],
+    driver_props=["ALL"],
+    streams=lambda tier, seed: [("fixtures",), ("gen", "general", seed, 200 if tier == "quick" else 4000), ("gen", "bindings", seed, 100 if tier == "quick" else 2000)],
+    opts=q_opts([0, 48], [0, 48, 21, 69]),
+    extra=extra_c17,
+    rule="valid sources: validation off vs on compared section by section against the model (which ignores the flag: gen_validate_irrelevant); corrupted sources (47 corruption kinds: "
+         "truncation, deletion, swaps, injected Unicode incl. NUL / bidi / emoji, semantic breakage such as wrong types, bad alignment, collisions, forbidden stage operations, recursion) "
+         "compared with naga called directly: class, message, all four emit_* renderers; non-trivial = the corrupted source differs from its base; distinct = distinct source text",
+    trusted_base=COMMON_TRUSTED + ["naga's front end, validator and codespan rendering are oracles (parameters of the model)"],
+    assumptions=["partial: a panic on a source naga accepts is generation's business (C09 documented panics / C01), not this property's"],
 )
